@@ -209,6 +209,9 @@ func checkMain(args []string) {
 			if o.Status == "unsat" && strings.Contains(o.Name, "#canary.after.") && status[strings.Replace(o.Name, "#canary.after.", "#canary.before.", 1)] == "unsat" {
 				continue // the call site itself is unreachable (dead code): the contract is not the cause
 			}
+			if o.Status == "unsat" && inDeadRegion(o, all) {
+				continue // dominated by a point proved unreachable (declared `dead`)
+			}
 			if o.Status == "unsat" && !failedFn[o.Func] {
 				// (code after a failed assertion is vacuously unreachable in the encoding: not an engine fault)
 				engineError("vacuity: reachability canary %s is unsat (contradictory assumptions)", o.Name)
@@ -580,4 +583,18 @@ func parseDomain(d string, defLen int) (string, int) {
 		}
 	}
 	return alpha, n
+}
+
+// inDeadRegion: some `dead` obligation of the same function was proved unreachable in a block that
+// dominates (or is) the canary's block.
+func inDeadRegion(c *Obligation, all []*Obligation) bool {
+	if c.Blk == nil {
+		return false
+	}
+	for _, d := range all {
+		if d.Class == "dead" && d.Func == c.Func && d.Status == "unsat" && d.Blk != nil && (d.Blk == c.Blk || d.Blk.Dominates(c.Blk)) {
+			return true
+		}
+	}
+	return false
 }
